@@ -6,7 +6,8 @@
      mode plain|dryrun           dryrun: every transaction was preceded by discarded dry runs
      case <block> ...            one case per block
      tx <i> <class>              result class of each transaction of the block
-     d <store> <sha256>          digest of every DeFi module store and of the bank store after the block
+     d <store> <sha256>          digest of every DeFi module store, of the bank store and of the answers to the
+                                 parameter queries (d queries) after the block
    For every block and every store (and every tx) the extracted predicate MapSites.holds_C16 (all
    replays agree) is evaluated on the list of observations across the replays. *)
 open Conv
